@@ -13,7 +13,8 @@ import (
 )
 
 type vfC14Item struct {
-	Close bool `json:",omitempty"`
+	Cmd   *vfReq `json:",omitempty"` // an unrelated, non-read/write, non-close request in the middle of the pipeline
+	Close bool   `json:",omitempty"`
 	H     int  // handle index
 	Len   int  `json:",omitempty"`
 	Off   int  `json:",omitempty"` // READ offset
@@ -62,6 +63,13 @@ func vfGenC14(t *rapid.T) vfCaseC14 {
 		pos := rapid.IntRange(last+1, len(c.Burst)).Draw(t, "closepos")
 		// never before a CLOSE-less later op of the same handle: pos > last guarantees it
 		c.Burst = append(c.Burst[:pos], append([]vfC14Item{{Close: true, H: h}}, c.Burst[pos:]...)...)
+	}
+	// unrelated commands anywhere in the pipeline (in particular between the last read/write and the CLOSE)
+	ncmd := rapid.IntRange(0, 4).Draw(t, "ncmd")
+	for i := 0; i < ncmd; i++ {
+		r := vfGenReq(t, []string{"STAT", "LSTAT", "REALPATH", "READLINK", "MKDIR", "STATVFS", "EXTUNKNOWN", "OPENDIR"})
+		pos := rapid.IntRange(0, len(c.Burst)).Draw(t, "cmdpos")
+		c.Burst = append(c.Burst[:pos], append([]vfC14Item{{Cmd: &r, H: -1}}, c.Burst[pos:]...)...)
 	}
 	na := rapid.IntRange(0, 4).Draw(t, "nafter")
 	for i := 0; i < na; i++ {
@@ -128,6 +136,8 @@ func vfRunC14(ctx *vfCtx, c vfCaseC14) {
 	for _, it := range c.Burst {
 		var p *vfPkt
 		switch {
+		case it.Cmd != nil:
+			p = ps.env.build(*it.Cmd, ps.id())
 		case it.Close:
 			p = &vfPkt{Type: vfFxpClose, ID: ps.id(), Handle: []byte(handleOf[it.H])}
 			sawClose = true
@@ -140,7 +150,7 @@ func vfRunC14(ctx *vfCtx, c vfCaseC14) {
 			model[it.H] = append(model[it.H], data...)
 			p = &vfPkt{Type: vfFxpWrite, ID: ps.id(), Handle: []byte(handleOf[it.H]), Offset: uint64(off), Data: data}
 		}
-		if !it.Close && !sawClose {
+		if !it.Close && it.Cmd == nil && !sawClose {
 			rwBeforeClose++
 		}
 		pkts = append(pkts, p)
